@@ -46,6 +46,11 @@ func (p propSpec) Deadline(tier int) time.Duration { return p.DeadlineT[tier] }
 const techSX = "symbolic execution of the real code's go/ssa (GoSX) with SMT (z3) deciding every branch and assertion over all values of the symbolic inputs within the stated bounds; counterexamples replayed natively"
 
 var properties = map[string]propSpec{
+	"C09": {
+		Level: "model_checking", Technique: techSX,
+		Bounds:  [2]string{"8 operators x 44 datum shapes (every reflect.Kind incl. Invalid, nil/odd elements in containers) x literal (every string <= 2 bytes + 5 fixed spellings); selector direct, through quantifier alias, map value binding, under not/or; datum root", "same"},
+		Outside: "datum shapes other than the 44 listed; literals longer than 2 symbolic bytes",
+	},
 	"C02": {
 		Level: "model_checking", Technique: techSX,
 		Bounds: [2]string{"literal: every byte string of length <= 3; field value: full domain of its kind", "literal: every byte string of length <= 4; field value: full domain of its kind"},
